@@ -334,6 +334,94 @@ def failed_start_component(cases):
     return fails, stats
 
 
+# stop() BEFORE THE RUNNER THREAD RAN (implementation monitor, sync engine): a non-blocking spawn hands the child to a runner thread; the
+# parent is stopped (or stops the child with stopChild) before that thread is scheduled.  The thread is held back by a Thread class
+# patched into the engine's namespace and released after stop() returned: the child must not run afterwards.  (Genuine defect F40,
+# found while making the failed-start family robust on a loaded host: repaired in /repo, kept as a regression family.)
+def held_runner_cases():
+    return [dict(how=how, timer=timer, grandchild=g) for how in ("stop", "stopChild") for timer in (True, False) for g in (True, False)]
+
+
+def run_held_runner(case):
+    import threading, time, types, logging
+    logging.disable(logging.CRITICAL)
+    import xstate_statemachine.sync_interpreter as si
+    from xstate_statemachine import create_machine, SyncInterpreter, MachineLogic
+    gate = threading.Event()
+    real = threading.Thread
+
+    class HeldThread(real):
+        def run(self):
+            if self.name.startswith("actor-"):
+                gate.wait(5)
+            super().run()
+    old = si.threading
+    si.threading = types.SimpleNamespace(**{k: getattr(threading, k) for k in dir(threading) if not k.startswith("__")})
+    si.threading.Thread = HeldThread
+    ran = []
+    made = []
+    res = dict(case=case)
+    try:
+        def seen(i, c, e, a):
+            ran.append(i.machine.id)
+            if i not in made:
+                made.append(i)
+        leaf = create_machine({"id": "leaf", "initial": "on", "states": {"on": {"entry": ["seen"]}}}, logic=MachineLogic(actions={"seen": seen}))
+        on = {"entry": ["seen"] + (["spawn_leaf"] if case["grandchild"] else [])}
+        if case["timer"]:
+            on["after"] = {"20": {"target": "on", "reenter": True, "actions": ["seen"]}}
+        kid = create_machine({"id": "kid", "initial": "on", "states": {"on": on}}, logic=MachineLogic(actions={"seen": seen}, services={"leaf": leaf}))
+        parent = create_machine({"id": "m", "initial": "a", "states": {"a": {"entry": [{"type": "spawn_kid", "params": {"id": "k"}}],
+                                                                         "on": {"DROP": {"actions": [{"type": "xstate.stopChild", "params": {"id": "k"}}]}}}}},
+                                logic=MachineLogic(services={"kid": kid}))
+        it = SyncInterpreter(parent)
+        it.start()
+        children = list(it._actors.values())
+        if case["how"] == "stop":
+            it.stop()
+        else:
+            it.send("DROP")
+        res["ran_before_release"] = list(ran)
+        gate.set()
+        time.sleep(0.25)
+        res["ran_after_release"] = list(ran)
+        res["statuses"] = [c.status for c in children] + [x.status for x in made]
+        for c in children + made:
+            try:
+                c.stop()
+            except Exception:
+                pass
+        it.stop()
+    except Exception as exc:
+        res["harness_exc"] = repr(exc)
+    finally:
+        gate.set()
+        si.threading = old
+    return res
+
+
+def held_runner_monitor(res):
+    if "harness_exc" in res or "statuses" not in res:
+        return []
+    if "running" in res["statuses"] or len(res["ran_after_release"]) > len(res["ran_before_release"]):
+        return [("the runner thread of a spawned child was scheduled only after %s had returned: the child was started then and ran on "
+                 "(statuses %s, actions run afterwards: %s) - nothing the interpreter created may run after stop()"
+                 % ("stop()" if res["case"]["how"] == "stop" else "stopChild", res["statuses"], res["ran_after_release"][len(res["ran_before_release"]):][:5]), None)]
+    return []
+
+
+def held_runner_component():
+    from concurrent.futures import ProcessPoolExecutor
+    cases = held_runner_cases()
+    with ProcessPoolExecutor(max_workers=8) as ex:
+        results = list(ex.map(run_held_runner, cases))
+    fails = []
+    for case, res in zip(cases, results):
+        for what, sig in held_runner_monitor(res):
+            fails.append(dict(case=dict(held_runner=True, **case), what=what, signature=sig))
+    return fails, dict(cases=len(cases), judged=sum(1 for r in results if "statuses" in r))
+
+
 def run(rep, ctx):
     from concurrent.futures import ProcessPoolExecutor
     rng = random.Random(ctx["seed"] * 7919 + 14)
@@ -367,6 +455,7 @@ def run(rep, ctx):
         jobs.append(("c14_life_%03d" % (j // shard), text))
     outs = core.coq_eval_many(jobs, par=14)
     n = 0
+    irreproducible = 0
     for (jn, _), j in zip(jobs, range(0, len(cases), shard)):
         rc, out, _ = outs[jn]
         if rc != 0:
@@ -377,9 +466,17 @@ def run(rep, ctx):
             n += 1
             for b in re.findall(r"\d+", sbad):
                 am, engine, runs, _ = cases[int(si)]
-                kept = [r for r, snaps in zip(runs, results[int(si)])
+                kept = [(r, snaps) for r, snaps in zip(runs, results[int(si)])
                         if not (any(len(s) == 1 and s[0][1] == "TIMEOUT" for s in snaps) or sum(len(s) for s in snaps) > 15000)]
-                cx, ops = kept[int(b)]
+                (cx, ops), first = kept[int(b)]
+                # (a disagreement must be replayable: see kmacro.check)
+                try:
+                    again = impl_case((am, engine, [(cx, ops)], None))[0]
+                except BaseException:
+                    again = None
+                if again is not None and again != first:
+                    irreproducible += 1
+                    continue
                 disagreements.append(dict(component="K-life-" + engine[0], case=common.case_payload(am, engine, cx, ops), impl=None,
                                           model="Life model differs from the implementation"))
     rep.coverage.update(evaluations=evaluations, distinct_nontrivial=len({core.case_hash([c[0].to_coq(), c[1], r]) for c in cases for r in c[2]}),
@@ -388,7 +485,7 @@ def run(rep, ctx):
                              "status change is an allowed edge, nothing stays armed after stop(), nothing is delivered after stop()",
                         samples=[dict(engine=c[1], ops=[list(o) for o in c[2][0][1]]) for c in cases[:3]],
                         traces_validated_against_impl=n,
-                        components={"K-life": dict(machines=n, disagreements=len(disagreements))})
+                        components={"K-life": dict(machines=n, disagreements=len(disagreements), irreproducible_impl_runs=irreproducible)})
     # stop() of an interpreter that is an actor: what it had scheduled towards OTHER live actors must die with it
     from harness.props import c15
     adis, afails, astats = c15.actor_component(c15.silence_family(rng, 400 if big else 80), "c14_silence")
@@ -402,6 +499,9 @@ def run(rep, ctx):
     sfails, sstats = failed_start_component(failed_start_cases(rng, 160 if big else 48))
     failures += sfails
     rep.coverage["components"]["monitor: stop() after a start() that failed behind spawned actors (implementation only, both engines)"] = sstats
+    hfails, hstats = held_runner_component()
+    failures += hfails
+    rep.coverage["components"]["monitor: stop() / stopChild before the runner thread of a spawned child was scheduled (implementation only, sync engine)"] = hstats
     core.decide(rep, ctx["proof"], disagreements, failures, None)
     rep.assumptions += ["liveness of OS threads / asyncio tasks after stop() is observed through the interpreter's own registries (task manager, "
                         "timer table) and by letting virtual time pass; it is monitored, not proved"]
@@ -410,6 +510,13 @@ def run(rep, ctx):
 def replay(payload):
     import base64, pickle
     case = payload.get("case") or (payload.get("first_disagreement") or {}).get("case")
+    if case and case.get("held_runner"):
+        res = run_held_runner({k: v for k, v in case.items() if k != "held_runner"})
+        print(res)
+        bad = held_runner_monitor(res)
+        for b in bad:
+            print("MONITOR:", b)
+        return 1 if bad else 0
     if case and case.get("failed_start"):
         res = run_failed_start({k: v for k, v in case.items() if k != "failed_start"})
         print(res)
